@@ -208,6 +208,43 @@ def ring_file_case(rng):
     return c
 
 
+def oom_case(rng):
+    """allocation-failure family (plain build, RLIMIT_AS clamped around single calls): a page allocation is refused in the
+    middle of a call, then the SAME Memory keeps being used - the refused page is read (must look never-touched), written
+    again, read back; at the end everything is read back and the object is freed"""
+    w = rng.choice([8, 16, 32, 64])
+    prog = IO_PROGRAM(w)
+    calls = [['new', [w], {'flat_max_words': rng.choice([0, 0, 4, 1 << 14])}], ['add_segment', 0, len(prog)], ['set_words', 0, prog]]
+    if rng.random() < 0.4:
+        calls.append(['run', 'ff', {'last_ops_length': rng.choice([0, 3]), 'start_ip': 0}])     # flat storage decided: pokes go beyond the window
+    touched = []
+    pages = rng.sample(range(1, 4000), rng.choice([2, 4, 8, 40]))
+    for pg in pages:
+        a = ((pg << 14) | rng.randrange(1 << 14)) & U64
+        v = rng.getrandbits(64)
+        how = rng.choice(['set_word', 'set_word', 'get_word', 'set_words'])
+        inner = ['set_word', a, v] if how == 'set_word' else ['get_word', a] if how == 'get_word' else ['set_words', a, [v, 1, 2][:1 + (a & 1)]]
+        calls += [['oom', inner], ['get_word', a], ['set_word', a, v], ['get_word', a]]
+        touched.append(a)
+        if rng.random() < 0.15:
+            calls.append(['oom', ['add_segment', pg << 14, 4]])
+        if rng.random() < 0.1:
+            calls.append(['oom', ['run', '', {'last_ops_length': rng.choice([0, 2]), 'start_ip': rng.choice([0, (pg << 14) << (w.bit_length() - 1) & U64])}]])
+    calls += [['get_word', a] for a in touched]
+    return {'kind': 'api', 'tags': ['oom'], 'calls': calls}
+
+
+def oom_file_case(rng):
+    """the same through fjm_run.run: a device writes fresh pages from inside write_bit while no memory can be had, writes the
+    refused word again, and reads everything back at its next call"""
+    w = rng.choice([16, 32, 64])
+    prog = [2 * w, 4 * w, 0, 0, 2 * w + 1, 6 * w, 3 * w, 6 * w]          # ip 0: output 0 -> ip 4w: output 1 -> ip 6w: loop
+    pokes = [['ow', ((pg << 14) | rng.randrange(1 << 14)), rng.getrandbits(w)] for pg in rng.sample(range(1, 3000), rng.choice([3, 10, 30]))]
+    return dict(kind='file', w=w, segs=[(0, len(prog), 0, len(prog))], words=prog, version=rng.choice([0, 1]), input='',
+                script={'0': pokes, '1': [['ocheck']]}, no_flat=rng.random() < 0.3, measure=False, last_ops=rng.choice([None, 3]),
+                tags=['oomdev'], expect='oom')
+
+
 def refprobe_case(rng):
     """reference-count probe: run() and set_words() on their normal and error paths"""
     w = rng.choice([8, 16, 32, 64])
@@ -269,6 +306,9 @@ def tie_terms(case, res):
     terms = []
     for ci, (call, r, ob) in enumerate(zip(case['calls'], res['results'], res.get('obs', []))):
         name, args = call[0], call[1:]
+        oom = name == 'oom'
+        if oom:
+            name, args = args[0][0], args[0][1:]
         if ob is None or ob[1] == 9:
             break
         vals = []
@@ -290,6 +330,8 @@ def tie_terms(case, res):
         elif name == 'set_words':
             t = f'TSetWords {_n(args[0])} [' + ';'.join(_item(x) for x in args[1]) + ']'
         elif name == 'run':
+            if oom:
+                break                                  # Python's own allocations inside the callbacks may fail too: dynamic only
             io = args[1].get('io') or {}
             if cls == 0:
                 if r[1] > TIE_MAX_OPS:
@@ -303,7 +345,7 @@ def tie_terms(case, res):
             t = 'TGet'
         else:
             break
-        terms.append((t, f'mkObs {cls} {_n(ob[0])} {ob[1]} {_nl(vals)}', ci))
+        terms.append((f'TOom ({t})' if oom else t, f'mkObs {cls} {_n(ob[0])} {ob[1]} {_nl(vals)}', ci))
     return terms
 
 
@@ -370,19 +412,24 @@ def gen_cases(ctx, n):
     return cases
 
 
-def run_batch(ctx, so, cases, idx):
-    """returns (results aligned with cases, list of (case_index, stderr tail) for sanitizer aborts)"""
+def run_batch(ctx, so, cases, idx, pressure=False):
+    """returns (results aligned with cases, list of (case_index, stderr tail) for sanitizer aborts);
+    pressure: the plain build with the allocation-failure machinery instead of the sanitizer build"""
     results = [None] * len(cases)
     aborts = []
     start = 0
     while start < len(cases):
-        inp = ctx.scratch / f'c11_{idx}_{start}.in.json'
-        outp = ctx.scratch / f'c11_{idx}_{start}.out.json'
-        prog = ctx.scratch / f'c11_{idx}_{start}.prog'
+        tagp = 'oom' if pressure else 'c11'
+        inp = ctx.scratch / f'{tagp}_{idx}_{start}.in.json'
+        outp = ctx.scratch / f'{tagp}_{idx}_{start}.out.json'
+        prog = ctx.scratch / f'{tagp}_{idx}_{start}.prog'
         inp.write_text(json.dumps(cases[start:]))
-        env = fw.env_for_repo({'FJVERIF_FJCORE_SO': str(so), 'LD_PRELOAD': fw.ASAN_RT,
-                               'ASAN_OPTIONS': 'detect_leaks=0:allocator_may_return_null=1:exitcode=77:abort_on_error=0',
-                               'UBSAN_OPTIONS': 'print_stacktrace=1:halt_on_error=1:exitcode=78'})
+        if pressure:
+            env = fw.env_for_repo({'FJVERIF_FJCORE_SO': str(so), 'FJVERIF_MEMORY_PRESSURE': '1'})
+        else:
+            env = fw.env_for_repo({'FJVERIF_FJCORE_SO': str(so), 'LD_PRELOAD': fw.ASAN_RT,
+                                   'ASAN_OPTIONS': 'detect_leaks=0:allocator_may_return_null=1:exitcode=77:abort_on_error=0',
+                                   'UBSAN_OPTIONS': 'print_stacktrace=1:halt_on_error=1:exitcode=78'})
         p = subprocess.run(['timeout', '900', fw.PY, '-m', 'fjverif.workers.native_api', str(inp), str(outp), str(prog)],
                            env=env, stdout=subprocess.PIPE, stderr=subprocess.STDOUT, text=True, cwd=str(ctx.scratch))
         done = json.loads(outp.read_text()) if outp.exists() else []
@@ -449,6 +496,50 @@ def campaign_round(ctx, so, cases):
     return api
 
 
+def pressure_round(ctx, cases):
+    """the allocation-failure family on the plain build: any crash/abort of the worker, a word that does not read back, or a
+    refused page that does not look never-touched afterwards is a violation; returns the (case, result) of the API cases"""
+    so = fw.build_fjcore(ctx, sanitize=False)
+    nb = max(1, min(fw.NCPU, len(cases) // 8))
+    chunks = [cases[i::nb] for i in range(nb)]
+    with ThreadPoolExecutor(max_workers=nb) as ex:
+        outs = list(ex.map(lambda t: run_batch(ctx, so, t[1], t[0], pressure=True), list(enumerate(chunks))))
+    api = []
+    for (results, aborts), chunk in zip(outs, chunks):
+        for c, r in zip(chunk, results):
+            ctx.count(json.dumps(c, sort_keys=True)[:4000], nontrivial=True)
+            ctx.hist('case_kind', c['kind'] + ':' + ','.join(c.get('tags', [])[-1:]))
+            if r is None:
+                ctx.hist('memory_pressure', 'aborted-or-skipped')
+                continue
+            if c['kind'] == 'api':
+                api.append((c, r))
+                refused = sum(1 for call, x in zip(c['calls'], r['results']) if call[0] == 'oom' and x == 'exc:MemoryError')
+                served = sum(1 for call, x in zip(c['calls'], r['results']) if call[0] == 'oom' and x != 'exc:MemoryError')
+                ctx.hist('memory_pressure', 'api:calls-refused', refused)
+                ctx.hist('memory_pressure', 'api:calls-served(inconclusive)', served)
+                ctx.hist('memory_pressure', 'api:sequence-with-a-refusal' if refused else 'api:no-failure-provoked(inconclusive)')
+            else:
+                o = r.get('oom', {})
+                ctx.hist('memory_pressure', 'device:writes-refused', o.get('refused', 0))
+                ctx.hist('memory_pressure', 'device:writes-served(inconclusive)', o.get('served', 0))
+                ctx.hist('memory_pressure', 'device:run-with-a-refusal' if o.get('refused') else 'device:no-failure-provoked(inconclusive)')
+                if o.get('MISMATCH') or 'exc' in r:
+                    ctx.violation({'kind': 'oom-inconsistent'},
+                                  f"after a refused page allocation the engine's memory is inconsistent or the run failed: {r.get('oom_log')} {r.get('exc')} {r.get('msg')}",
+                                  {'case': c, 'observed': r, 'required': 'MemoryError from the refused write only; the word reads as never '
+                                   'touched, can be written again, everything reads back; the run ends normally',
+                                   'how': 'plain build, FJVERIF_MEMORY_PRESSURE=1, fjverif.workers.native_api on this case'})
+        for at, rc, tail in aborts:
+            c = chunk[at] if at < len(chunk) else None
+            ctx.violation({'kind': 'oom-crash'},
+                          f'the plain build of the native engine died (rc={rc}) while or after a page allocation was refused',
+                          {'case': c, 'stderr_tail': tail,
+                           'how': 'gcc -O2 build of _fjcore.c, FJVERIF_MEMORY_PRESSURE=1 (RLIMIT_AS clamped around the marked calls), '
+                                  'fjverif.workers.native_api on this case'})
+    return api
+
+
 def run(ctx):
     ctx.level = 'proof'
     fw.static_proofs(ctx, ['Properties/C11.v'], extra_targets=['Model/NativeSafeCase.vo'])
@@ -469,8 +560,11 @@ def run(ctx):
         if len(ctx.violations) >= 8:
             break
     cases = first_cases
+    # the allocation-failure family (plain build): its API sequences join the model tie with a refusing allocator
+    npress = ctx.n(160, 1600)
+    press = pressure_round(ctx, [oom_case(ctx.rng) for _ in range(npress)] + [oom_file_case(ctx.rng) for _ in range(npress // 3)])
     # the tie of the proved index model (Properties/C11.v) to the code: same call sequences inside Coq
-    tie_cases = api[:want]
+    tie_cases = api[:want] + press
     ncalls = model_tie(ctx, tie_cases)
     ctx.coverage['tie_sequences'] = len(tie_cases)
     ctx.coverage['tie_calls_compared'] = ncalls
@@ -486,7 +580,12 @@ def run(ctx):
                             '(ok / ValueError / OverflowError / TypeError / MemoryError), allocated_bytes, storage_mode, get_word values and '
                             'run results (cause, op count, fault address, last ops); a disagreement without a sanitizer report is a broken tie.  '
                             'Refcount probe: sys.getrefcount deltas of read_bit, write_bit, the EOF type and the values list around every run()/'
-                            'set_words() call including the error paths (callback raises / returns a non-bool / bad list elements) must be 0')
+                            'set_words() call including the error paths (callback raises / returns a non-bool / bad list elements) must be 0.  '
+                            'Allocation-failure family (plain gcc build, RLIMIT_AS clamped to the current usage around single calls / device writes, '
+                            'M_MMAP_THRESHOLD=64K so the 128 KB page allocation is the one refused): after the MemoryError the same Memory is used on - '
+                            'the refused word reads as never touched, is written again, everything reads back, the object is freed; a crash of the '
+                            'worker or a wrong read-back is a violation, and the API sequences are compared with the model under a refusing allocator; '
+                            'calls that were served anyway are counted as inconclusive')
     ctx.assumptions += ['reference-count ownership and host-crash freedom are exercised dynamically only (sanitizer + refcount probe), not proved',
                         'the theorems are about the hand-written index model Model/NativeSafe.v; allocator: no object larger than PTRDIFF_MAX; '
                         'callbacks only call get_word/set_word (the NativeDeviceMemory interface) - re-entering run/__init__/set_words from a '
